@@ -146,6 +146,21 @@ static bool gen_c04(uint64_t seed, const std::string &tier, uint64_t i, Plan &p)
   static const int modes[] = {0, 9, 1, 5, 2, 3, 4, 9, 7, 9, 2, 3};
   int mode = modes[i % 12];
   base_knobs(r, p, false);
+  if (i % 40 == 13) {
+    // wide plan: a spawner announcing a limit in the upper half of the byte range, a larger configured concurrency, and more
+    // slow recipients than either, so that the bound min(configured, announced) is actually reached
+    bool local = r.chance(0.5); int announced = (int)r.pick(std::vector<int64_t>{127, 128, 129, 140, 200, 254, 255}); int configured = std::min<int>(255, announced + (int)r.pick(std::vector<int64_t>{-3, 1, 5, 40}));
+    if (configured < 1) configured = 1;
+    Json conf = Json::obj(); conf.set("queuelifetime", 100000).set(local ? "concurrencylocal" : "concurrencyremote", configured).set(local ? "concurrencyremote" : "concurrencylocal", 3);
+    p.knobs.set("conf", conf).set(local ? "spawn_limit_local" : "spawn_limit_remote", announced).set("default_verdict", "K").set("default_lat", (long long)r.range(20, 200)).set("oracles", oracle_list({"c04"})).set("expect_drain", true);
+    int n = std::max(announced, configured) + (int)r.range(2, 12); Json rc = Json::arr(); for (int q = 0; q < n; q++) rc.push("w" + std::to_string(q) + (local ? "@l.example" : "@r.example"));
+    p.ops.push(Json::obj().set("op", "boot"));
+    p.ops.push(Json::obj().set("op", "inject").set("id", "m1").set("sender", "s@x.example").set("rcpts", rc).set("body_len", 50).set("body_seed", 1));
+    p.ops.push(Json::obj().set("op", "settle").set("max_s", 500000));
+    p.knobs.set("max_sim_s", 3000000);
+    p.label = "wide: " + std::string(local ? "local" : "remote") + " configured=" + std::to_string(configured) + " announced=" + std::to_string(announced) + " recipients=" + std::to_string(n);
+    return true;
+  }
   gen_history(r, p, mode, true);
   p.knobs.set("oracles", oracle_list({"c04"}));
   p.label = std::string("history/") + kModeNames[mode];
